@@ -243,4 +243,92 @@ theorem getData_geometry (d : ImageData) (h : Header) (ps : List (List UInt8))
         exact this
     · simp [hl] at hg
 
+/-! ### `save` in terms of `regenerate`; what a save keeps -/
+
+theorem setData_comp (c : Comp) (planes : List (List UInt8)) (h : Header) : (setData c planes h).comp = c := by
+  cases c <;> rfl
+
+theorem save_eq_regenerate {α : Type} (Q : Quant α) (s : DocState) (c : Composite α) :
+    save Q s c = if !s.dirty then .ok s else
+      match regenerate Q s c with
+      | .error e => .error e
+      | .ok none => .ok s
+      | .ok (some planes) =>
+        .ok { s with imageData := setData s.imageData.comp planes s.info.header,
+                     info := { s.info with versionInfo := s.info.versionInfo.map fun _ => true } } := by
+  unfold save regenerate
+  cases hd : s.dirty
+  · simp
+  · simp only [Bool.not_true, Bool.false_eq_true, if_false]
+    cases mergedRoutes s.info (match getData s.imageData s.info.header with | .ok _ => true | .error _ => false) with
+    | error e => rfl
+    | ok r =>
+      cases r with
+      | none => rfl
+      | some routes =>
+        simp only
+        cases traverse (realise Q s.info.header.depth c
+          (match getData s.imageData s.info.header with | .ok ps => ps | .error _ => [])) routes <;> rfl
+
+/-- the flag, the header and the compression method survive a save -/
+theorem save_keeps {α : Type} (Q : Quant α) (s s' : DocState) (c : Composite α) (h : save Q s c = .ok s') :
+    s'.dirty = s.dirty ∧ s'.info.header = s.info.header ∧ s'.imageData.comp = s.imageData.comp := by
+  rw [save_eq_regenerate] at h
+  cases hd : s.dirty
+  · simp [hd] at h; subst h; exact ⟨hd, rfl, rfl⟩
+  · simp only [hd, Bool.not_true, Bool.false_eq_true, if_false] at h
+    cases hr : regenerate Q s c with
+    | error e => simp [hr] at h
+    | ok r =>
+      cases r with
+      | none => simp [hr] at h; subst h; exact ⟨hd, rfl, rfl⟩
+      | some planes =>
+        simp [hr] at h; subst h
+        exact ⟨rfl, rfl, setData_comp _ _ _⟩
+
+/-- for a supported document the regeneration succeeds with planes of the header geometry -/
+theorem regenerate_ok {α : Type} (Q : Quant α) (hQ : Q.Lawful) (s : DocState) (c : Composite α)
+    (hdep : s.info.header.depth = 8 ∨ s.info.header.depth = 16 ∨ s.info.header.depth = 32)
+    (hb : s.info.header.cmode ≠ .bitmap)
+    (hch : s.info.header.cmode.expected ≤ s.info.header.channels) (hc : c.WF s.info.header) :
+    ∃ planes, regenerate Q s c = .ok (some planes) ∧ planes.length = s.info.header.channels ∧
+      ∀ p ∈ planes, p.length = planeBytes s.info.header := by
+  cases hold : getData s.imageData s.info.header with
+  | ok ps =>
+    obtain ⟨hl, hsz⟩ := getData_geometry _ _ _ hold
+    obtain ⟨rs, hrs, hrl, hrv⟩ := mergedRoutes_ok s.info true hdep hb hch
+    simp only [if_true] at hrv
+    obtain ⟨planes, hp, hpl, hpall⟩ := traverse_all (realise Q s.info.header.depth c ps)
+      (fun p => p.length = planeBytes s.info.header) rs
+      (fun r hr => realise_ok Q hQ s.info.header hdep c hc ps hsz r (by rw [hl]; exact hrv r hr))
+    exact ⟨planes, by simp [regenerate, hold, hrs, hp], by rw [hpl, hrl], hpall⟩
+  | error e =>
+    obtain ⟨rs, hrs, hrl, hrv⟩ := mergedRoutes_ok s.info false hdep hb hch
+    simp only [Bool.false_eq_true, if_false] at hrv
+    obtain ⟨planes, hp, hpl, hpall⟩ := traverse_all (realise Q s.info.header.depth c [])
+      (fun p => p.length = planeBytes s.info.header) rs
+      (fun r hr => realise_ok Q hQ s.info.header hdep c hc [] (by simp) r (by simpa using hrv r hr))
+    exact ⟨planes, by simp [regenerate, hold, hrs, hp], by rw [hpl, hrl], hpall⟩
+
+/-! ### histories -/
+
+theorem runEvents_ops {α : Type} (Q : Quant α) (s : DocState) (ops : List Op) :
+    runEvents Q s (ops.map Event.op) = .ok { s with dirty := dirtyAfter s.dirty ops } := by
+  induction ops generalizing s with
+  | nil => simp [runEvents, dirtyAfter]
+  | cons o os ih =>
+    simp only [List.map_cons, runEvents, step]
+    rw [ih]
+    simp [dirtyAfter, Bool.or_assoc]
+
+theorem runEvents_append {α : Type} (Q : Quant α) (s s' : DocState) (es fs : List (Event α))
+    (h : runEvents Q s es = .ok s') : runEvents Q s (es ++ fs) = runEvents Q s' fs := by
+  induction es generalizing s with
+  | nil => simp [runEvents] at h; subst h; rfl
+  | cons e es ih =>
+    simp only [List.cons_append, runEvents] at h ⊢
+    cases hs : step Q s e with
+    | error err => simp [hs] at h
+    | ok t => simp only [hs] at h ⊢; exact ih t h
+
 end PsdVerif.Merged
